@@ -1,6 +1,8 @@
 """C06 - DeepHash: equal content hashes equally.
 
 proof:           coq/theories/Hash/{HashModel,Equiv,HashProofs*}.v, Properties/C06.v
+                 extended model Hash/HashXModel.v + HashXProofs*.v (more leaf types, counts, apply_hash=False,
+                 _skip_this, notation 'e', big ints, truncate_datetime, type groups): corr_x
 correspondence:  the real DeepHash run with hasher = hex-of-utf8 (an injective,
                  separator-free hasher that is also defined in Coq: `hexhash`)
                  against `hash_memo hexhash`: the root hash STRING and every
@@ -29,11 +31,17 @@ COQCHK = ["Properties.C06"]
 RULE = ("values: tree-shaped nests of dict/list/tuple/set/frozenset over None/bool/int/half-integer float/str/ASCII bytes, depth <= 3-4, "
         "width <= 4, a third of them with ==-aliasing atoms (1, 1.0, True ...); a case = (value or chain of values, option record); "
         "non-trivial = the value contains at least one container; distinct = distinct (canonical value, options, check kind); plus values in which "
-        "one object occurs at several positions (templates + values.share), one table outliving 50 runs over temporaries, in-place edits between runs")
+        "one object occurs at several positions (templates + values.share; also 12 % of all generated values), one table outliving 50 runs over temporaries, "
+        "in-place edits between runs; extended stream: expressions over the extended universe (new leaf types, namedtuples, Enum members, objects) x option records "
+        "with several non-default options at once x _skip_this configurations with 1-3 criteria built from the value's own paths")
 TRUSTED = [
     "no hypothesis on the hasher is used by the C06 theorems (H is an arbitrary function); the refutation witnesses are evaluated with the concrete hex hasher",
     "bytes are modelled for ASCII content only (utf-8 decoding = identity); floats are half-integers with positional repr",
-    "cyclic / shared mutable containers, custom objects, numpy, Decimal, datetime, exclude/include paths, custom operators are outside the model",
+    "the extended model Hash/HashXModel.v (date / datetime / time / timedelta / Decimal / PosixPath leaves, namedtuples / Enum members / plain objects, "
+    "item counts, apply_hash=False, _skip_this for exclude_paths / include_paths / exclude_types / exclude_obj_callback, number_format_notation='e', "
+    "ints beyond 2^53 under number formatting, truncate_datetime, ignore_type_in_groups) is table-free: inputs with == aliases among table keys are kept out of its correspondence",
+    "cyclic containers, numpy / pandas / polars, custom operators, use_enum_value, encodings, timedelta under number formatting (the code raises), Decimal with "
+    "notation 'e', time with microseconds, subclass membership in ignore_type_in_groups, textual include-path prefixes are outside every model",
 ]
 ASSUMPTIONS = ["acyclic inputs; a value in which one object occurs at several positions is compared with the model of its unfolded tree", "no nan/inf/-0.0"]
 
@@ -230,7 +238,7 @@ SAFE_NS = {"frozenset": frozenset, "set": set, "True": True, "False": False, "No
 
 def from_repr(s):
     g = {"__builtins__": {}}
-    g.update(SAFE_NS)          # in the globals: lambdas (used to rebuild shared sub-objects) resolve names there
+    g.update(globals().get("XNS") or SAFE_NS)   # in the globals: lambdas (used to rebuild shared sub-objects) resolve names there
     return eval(s, g)
 
 
@@ -342,11 +350,32 @@ def set_orders(v, out=None):
     return sorted(out) if top else out
 
 
+def _mechanisms(kind, o, v, w):
+    """what the mechanisms of the two known findings PREDICT for this failing pair, computed on the live objects (a
+    rebuilt set need not iterate like the original): K2 = every object read as the first == object visited before it in
+    DeepHash's traversal order (on the table left by w when the table is shared); K3 = sets read in iteration order"""
+    from harness.props import c07
+    out = {}
+    try:
+        if kind == "shared_table":
+            first = {}
+            c07._collapse(w, first)
+            a, b = c07._collapse(v), c07._collapse(v, first)
+        else:
+            a, b = c07._collapse(v), c07._collapse(w)
+        out["k2_predicts_difference"] = c07.canon_mode(a, o) != c07.canon_mode(b, o)
+        out["k3_predicts_difference"] = (not o[1]) and c07.canon_mode(v, o, set_iter=True) != c07.canon_mode(w, o, set_iter=True)
+    except Exception:
+        pass          # values outside the canonical form (opaque leaves): no prediction recorded
+    return out
+
+
 def _case(kind, o, v, w=None, extra=None):
     c = {"kind": kind, "opts": list(o), "value": expr_shared(v)}
     if w is not None:
         c["other"] = expr_shared(w)
         c["set_iteration_orders_differ"] = set_orders(v) != set_orders(w)
+        c.update(_mechanisms(kind, tuple(o), v, w))
     if extra:
         c.update(extra)
     return c
@@ -777,19 +806,40 @@ def _vals_of_case(case):
 
 
 def _k2(case):
-    """memo aliasing: the failing check involves the table (always) and two atoms that are == but of different type co-occur"""
-    if case.get("kind") not in ("dict_order", "set_order", "seq_order", "shared_table", "hash_seed", "copy", "unshared_copy", "shared_dict_order"):
+    """memo aliasing.  (a) the failing clause is one of the 'same content, other construction / other table' clauses;
+    (b) two table keys that are == but of different type co-occur; (c) the mechanism, replayed on a reference when the
+    case was recorded (_mechanisms), PREDICTS the difference - or, in ordered mode, the set iteration orders differ as
+    well (which of two == objects is visited first then depends on them).  A hash difference the mechanism does not
+    predict is not this finding."""
+    kind = case.get("kind")
+    if kind not in ("dict_order", "set_order", "seq_order", "shared_table", "hash_seed", "copy", "unshared_copy", "shared_dict_order"):
         return False
-    return memo_alias(*_vals_of_case(case))
+    vals = _vals_of_case(case)
+    if not memo_alias(*vals):
+        return False
+    if kind == "hash_seed":
+        return True      # the iteration orders of the other processes cannot be replayed here; (a) and (b) only
+    if case.get("k2_predicts_difference", True):
+        return True
+    return bool(case.get("set_iteration_orders_differ")) and any(contains_big_set(v) for v in vals)
 
 
 def _k3(case):
-    """ordered mode leaks set iteration order: ignore_iterable_order=False and a set/frozenset with >= 2 members"""
-    if case.get("kind") not in ("set_order", "hash_seed", "copy", "dict_order", "shared_table", "unshared_copy"):
+    """ordered mode leaks set iteration order.  (a) clause: same content rebuilt / copied / other process / other table;
+    (b) ignore_iterable_order=False, a set / frozenset with >= 2 members whose iteration order differs between the two
+    values; (c) the mechanism predicts the difference: the two values differ once sets are read in iteration order
+    (recorded with the case; not replayable for the other-process and shared-table clauses)"""
+    kind = case.get("kind")
+    if kind not in ("set_order", "hash_seed", "copy", "dict_order", "shared_table", "unshared_copy"):
         return False
     if case["opts"][1] or not case.get("set_iteration_orders_differ"):
         return False
-    return any(contains_big_set(v) for v in _vals_of_case(case))
+    vals = _vals_of_case(case)
+    if not any(contains_big_set(v) for v in vals):
+        return False
+    if kind in ("hash_seed", "shared_table"):
+        return True
+    return bool(case.get("k3_predicts_difference", True))
 
 
 MATCHERS = {"K2": _k2, "K3": _k3}
@@ -1027,7 +1077,7 @@ def force_alias(rng, v):
     return [b, a, v]
 
 
-def make_values(rng, n, depth, alias_frac=0.34):
+def make_values(rng, n, depth, alias_frac=0.34, share_frac=0.12):
     out = []
     for i in range(n):
         alias = rng.random() < alias_frac
@@ -1036,6 +1086,11 @@ def make_values(rng, n, depth, alias_frac=0.34):
             v = gen(rng, depth=depth, width=4, alias=alias, kinds="LTDSF")
         if alias and not values.contains_alias(v) and rng.random() < 0.8:
             v = force_alias(rng, v)
+        if rng.random() < share_frac and has_container(v):
+            # one container object at two or more positions, the rest fresh (the models see the unfolded tree)
+            w, ok = values.share(rng, v)
+            if ok:
+                v = w
         out.append(v)
     return out
 
@@ -1047,6 +1102,623 @@ FIXED = [
     [[1, 2], [2, 1]], [(1, 2), (2, 1)], [{1, 2}, frozenset({1, 2})], [{"a": 1, "b": 2}, {"b": 2, "a": 1}],
     [-1, -0.5, -1.5, 10, 12345678901234567890, 2.0], ["é", "\U0001d1c0"], ((1, [2]), (1, [2])),
 ]
+
+
+# ---------------------------------------------------------------------------
+# the extended model (Hash/HashXModel.v): more leaf types, counts, apply_hash=False, _skip_this,
+# number_format_notation='e', big ints under number formatting, truncate_datetime, ignore_type_in_groups
+# ---------------------------------------------------------------------------
+import collections as _col
+import datetime as _dt
+import decimal as _dec
+import enum as _enum
+import pathlib as _pl
+
+HEADER_X = ("From DD Require Import Base.PyStr Base.Value Hash.HashModel Hash.HashXModel Hash.HashXShow.\n"
+            "Local Open Scope Z_scope.")
+
+Pt = _col.namedtuple("Pt", "x y")
+Rec = _col.namedtuple("Rec", "name rows tag")
+
+
+class Col(_enum.Enum):
+    RED = 1
+    BLUE = "b"
+    GREEN = 2.5
+
+
+class Box:
+    """a plain object: its attribute dict is what DeepHash sees"""
+
+    def __init__(self, **kw):
+        self.__dict__.update(kw)
+
+    def __repr__(self):
+        return "%s(%s)" % (type(self).__name__, ", ".join("%s=%r" % kv for kv in self.__dict__.items()))
+
+
+class Crate:
+    """a second plain class (NOT a subclass of Box: with the default ignore_type_subclasses=False a subclass of a member of
+    an ignore_type_in_groups group is renamed like the member; the model knows class names only)"""
+
+    def __init__(self, **kw):
+        self.__dict__.update(kw)
+
+    def __repr__(self):
+        return "Crate(%s)" % ", ".join("%s=%r" % kv for kv in self.__dict__.items())
+
+
+XNS = dict(SAFE_NS)
+XNS.update({"date": _dt.date, "datetime": _dt.datetime, "time": _dt.time, "timedelta": _dt.timedelta, "timezone": _dt.timezone,
+            "Decimal": _dec.Decimal, "PosixPath": _pl.PosixPath, "Pt": Pt, "Rec": Rec, "Col": Col, "Box": Box, "Crate": Crate})
+EPOCH = _dt.datetime(1970, 1, 1)
+
+
+def from_xrepr(s):
+    g = {"__builtins__": {}}
+    g.update(XNS)
+    return eval(s, g)
+
+
+# (base options as in kw(), apply_hash, number_format_notation, truncate_datetime, ignore_type_in_groups (tuples of class names))
+def xkw(xo, cfg=None):
+    k = kw(xo[0])
+    k["apply_hash"] = xo[1]
+    k["number_format_notation"] = "e" if xo[2] else "f"
+    k["truncate_datetime"] = xo[3]
+    if xo[4]:
+        k["ignore_type_in_groups"] = [tuple(XNS[n] for n in g) for g in xo[4]]
+    if cfg:
+        ep, ip, et, ei = cfg
+        if ep:
+            k["exclude_paths"] = [path_text(p) for p in ep]
+        if ip:
+            k["include_paths"] = [path_text(p) for p in ip]
+        if et:
+            k["exclude_types"] = [XTYPES[t] for t in et]
+        if ei:
+            ints = list(ei)
+            k["exclude_obj_callback"] = lambda obj, path: type(obj) is int and obj in ints
+    return k
+
+
+XTYPES = {"XTNone": type(None), "XTBool": bool, "XTInt": int, "XTFloat": float, "XTStr": str, "XTBytes": bytes, "XTDate": _dt.date,
+          "XTDateTime": _dt.datetime, "XTTime": _dt.time, "XTTimedelta": _dt.timedelta, "XTDecimal": _dec.Decimal,
+          "XTPath": _pl.PosixPath, "XTList": list, "XTTuple": tuple, "XTDict": dict, "XTSet": set, "XTFrozen": frozenset}
+
+
+def _late_types():
+    from deepdiff.deephash import BoolObj
+    # _hash shows _skip_this a BoolObj member in place of a bool: excluding that class hits bools only at the second
+    # test, and the item enters its parent as the token "None"
+    XTYPES.setdefault('(XTObj (s2p "BoolObj"))', BoolObj)
+
+
+def path_text(p):
+    """a structured path [('k', key) | ('i', index) | ('a', attribute)] as DeepHash spells it"""
+    out = "root"
+    for kind, x in p:
+        if kind == "k":
+            out += "['%s']" % x if isinstance(x, (str, bytes)) else "[%s]" % (x,)
+        elif kind == "i":
+            out += "[%d]" % x
+        else:
+            out += ".%s" % x
+    return out
+
+
+def xatom_coq(a):
+    if a is None or isinstance(a, (bool, int, float, str, bytes)):
+        return "(XA %s)" % values.atom_to_coq(a)
+    if isinstance(a, _dt.datetime):
+        d = a.replace(tzinfo=None) - EPOCH
+        us = (d.days * 86400 + d.seconds) * 1000000 + d.microseconds
+        off = a.utcoffset()
+        if off is None:
+            return "(XL (LDateTime %s None))" % core.coq_Z(us)
+        mins = off.days * 1440 + off.seconds // 60
+        if off.seconds % 60 or off.microseconds:
+            raise TypeError("utc offset with seconds")
+        return "(XL (LDateTime %s (Some %s)))" % (core.coq_Z(us), core.coq_Z(mins))
+    if isinstance(a, _dt.date):
+        return "(XL (LDate %d %d %d))" % (a.year, a.month, a.day)
+    if isinstance(a, _dt.time):
+        if a.microsecond:
+            raise TypeError("time with microseconds")
+        return "(XL (LTime %d))" % (a.hour * 3600 + a.minute * 60 + a.second)
+    if isinstance(a, _dt.timedelta):
+        return "(XL (LTimedelta %s))" % core.coq_Z((a.days * 86400 + a.seconds) * 1000000 + a.microseconds)
+    if isinstance(a, _dec.Decimal):
+        sign, digits, exp = a.as_tuple()
+        if not isinstance(exp, int):
+            raise TypeError("non-finite Decimal")
+        coef = int("".join(map(str, digits)) or "0")
+        return "(XL (LDecimal %s %d%%N %s))" % (core.coq_bool(bool(sign)), coef, core.coq_Z(exp))
+    if isinstance(a, _pl.PosixPath):
+        return "(XL (LPath %s))" % core.coq_pystr(str(a))
+    raise TypeError(a)
+
+
+def is_xatom(a):
+    return a is None or isinstance(a, (bool, int, float, str, bytes, _dt.date, _dt.time, _dt.timedelta, _dec.Decimal, _pl.PosixPath))
+
+
+def obj_fields(v):
+    """(kind, class name, attribute items) of a namedtuple / Enum member / plain object as _prep_obj reads them"""
+    if isinstance(v, tuple) and hasattr(v, "_asdict"):
+        return "ONamed", type(v).__name__, list(v._asdict().items())
+    if isinstance(v, (_enum.Enum, Box, Crate)):
+        return "OObj", type(v).__name__, list(v.__dict__.items())
+    return None
+
+
+def to_coq_x(v):
+    of = obj_fields(v)
+    if of is not None:
+        kind, cls, items = of
+        fs = []
+        for name, x in items:
+            # the value of a private attribute is never looked at (ignore_private_variables=True is required for these values)
+            xc = "(XAtom (XA ANone))" if name.startswith("__") else to_coq_x(x)
+            fs.append("(%s, %s)" % (core.coq_pystr(name), xc))
+        return "(XObj %s %s [%s])" % (kind, core.coq_pystr(cls), "; ".join(fs))
+    if isinstance(v, list):
+        return "(XList [%s])" % "; ".join(to_coq_x(x) for x in v)
+    if isinstance(v, tuple):
+        return "(XTuple [%s])" % "; ".join(to_coq_x(x) for x in v)
+    if isinstance(v, dict):
+        return "(XDict [%s])" % "; ".join("(%s, %s)" % (xatom_coq(k), to_coq_x(x)) for k, x in v.items())
+    if isinstance(v, frozenset):
+        return "(XFrozen [%s])" % "; ".join(xatom_coq(x) for x in v)
+    if isinstance(v, set):
+        return "(XSet [%s])" % "; ".join(xatom_coq(x) for x in v)
+    return "(XAtom %s)" % xatom_coq(v)
+
+
+def coq_xpath(p):
+    out = []
+    for kind, x in p:
+        if kind == "k":
+            out.append("KKey %s" % xatom_coq(x))
+        elif kind == "i":
+            out.append("KIdx %d%%nat" % x)
+        else:
+            out.append("KAttr %s" % core.coq_pystr(x))
+    return "[%s]" % "; ".join(out)
+
+
+def coq_xopts(xo):
+    tr = {None: "None", "second": "(Some USecond)", "minute": "(Some UMinute)", "hour": "(Some UHour)", "day": "(Some UDay)"}[xo[3]]
+    groups = "[%s]" % "; ".join("[%s]" % "; ".join(core.coq_pystr(n) for n in g) for g in (xo[4] or ()))
+    return "(mk_xopts %s %s %s %s %s)" % (coq_opts(xo[0]), core.coq_bool(xo[1]), core.coq_bool(xo[2]), tr, groups)
+
+
+def coq_cfg(cfg):
+    if not cfg:
+        return "cfg0"
+    ep, ip, et, ei = cfg
+    return "(mk_skip [%s] [%s] [%s] [%s])" % ("; ".join(coq_xpath(p) for p in ep), "; ".join(coq_xpath(p) for p in ip),
+                                             "; ".join(et), "; ".join(core.coq_Z(z) for z in ei))
+
+
+def x_in_range(v, xo):
+    """the modelled domain: half-integer floats, ASCII bytes; no timedelta when number formatting is on (TypeError in
+    the code: round() of a timedelta), no Decimal with notation 'e'; ints below 2^1000 under number formatting"""
+    digits = xo[0][6] is not None or xo[0][5]
+    ok = [True]
+
+    def walk(x):
+        of = obj_fields(x)
+        if of is not None:
+            for _n, y in of[2]:
+                if not _n.startswith("__"):
+                    walk(y)
+        elif isinstance(x, (list, tuple, set, frozenset)):
+            for y in x:
+                walk(y)
+        elif isinstance(x, dict):
+            for k, y in x.items():
+                walk(k)
+                walk(y)
+        elif isinstance(x, float):
+            if not (abs(x) < 1e15) or x * 2 != int(x * 2):
+                ok[0] = False
+        elif isinstance(x, bytes):
+            if any(c >= 128 for c in x):
+                ok[0] = False
+        elif isinstance(x, _dt.timedelta) and not isinstance(x, _dt.datetime):
+            if digits:
+                ok[0] = False
+        elif isinstance(x, _dec.Decimal):
+            if digits and xo[2]:
+                ok[0] = False
+        elif isinstance(x, int) and not isinstance(x, bool):
+            if digits and abs(x) >= 2 ** 1000:
+                ok[0] = False
+    walk(v)
+    return ok[0]
+
+
+def impl_x(v, xo, cfg=None, hasher=hexhasher):
+    """[root (hash, count) or None, sorted set of the table's (hash, count) values]"""
+    from deepdiff import DeepHash
+    from deepdiff.deephash import UNPROCESSED_KEY
+    k = xkw(xo, cfg)
+    if hasher is not None:
+        k["hasher"] = hasher
+    dh = DeepHash(v, **k)
+    try:
+        root = [dh[v], dh.get(v, extract_index=1)]
+    except KeyError:
+        root = None
+    ents = set()
+    for key, val in dh.hashes.items():
+        if key is UNPROCESSED_KEY:
+            continue
+        ents.add((val[0], val[1]))
+    return root, core.sx_sorted([[h, c] for (h, c) in ents])
+
+
+def x_memo_alias(v):
+    """two table keys that are == but not the same value (Decimal('1') / 1 / 1.0 / True-as-member, two aware datetimes
+    for the same instant, Decimal('1.10') / Decimal('1.1') ...): the table-free extended model does not apply (K2)"""
+    seen = {}
+
+    def key(x):
+        k = _BoolKey(x) if isinstance(x, bool) else x
+        try:
+            hash(k)
+        except TypeError:
+            return
+        seen.setdefault(k, set()).add(repr(x))
+
+    def walk(x):
+        key(x)
+        of = obj_fields(x)
+        if of is not None:
+            for n, y in of[2]:
+                key(n)
+                if not n.startswith("__"):
+                    walk(y)
+        elif isinstance(x, (list, tuple, set, frozenset)):
+            for y in x:
+                walk(y)
+        elif isinstance(x, dict):
+            for k, y in x.items():
+                walk(k)
+                walk(y)
+    walk(v)
+    return any(len(c) > 1 for c in seen.values())
+
+
+def x_repeated_composite(v):
+    """a hashable composite (tuple / frozenset / namedtuple / Enum member) that occurs twice: with a path-dependent
+    skip the second occurrence is served from the table with the exclusions of the first"""
+    seen = set()
+    dup = [False]
+
+    def walk(x):
+        of = obj_fields(x)
+        if isinstance(x, (tuple, frozenset, _enum.Enum)):
+            try:
+                if x in seen:
+                    dup[0] = True
+                seen.add(x)
+            except TypeError:
+                pass
+        if of is not None:
+            for n, y in of[2]:
+                if not n.startswith("__"):
+                    walk(y)
+        elif isinstance(x, (list, tuple)):
+            for y in x:
+                walk(y)
+        elif isinstance(x, dict):
+            for y in x.values():
+                walk(y)
+    walk(v)
+    return dup[0]
+
+
+def x_paths(v, p=()):
+    """all structured paths below the root, as the code forms them"""
+    out = []
+    of = obj_fields(v)
+    if of is not None:
+        for n, y in of[2]:
+            if not n.startswith("__"):
+                out.append(p + (("a", n),))
+                out += x_paths(y, p + (("a", n),))
+    elif isinstance(v, (list, tuple, set, frozenset)):
+        for i, y in enumerate(v):
+            out.append(p + (("i", i),))
+            out += x_paths(y, p + (("i", i),))
+    elif isinstance(v, dict):
+        for k, y in v.items():
+            out.append(p + (("k", k),))
+            out += x_paths(y, p + (("k", k),))
+    return out
+
+
+def path_text_ok(p):
+    """keys whose spelling inside a path is unambiguous (no quotes / brackets inside str keys, no bytes keys)"""
+    for kind, x in p:
+        if kind == "k" and (isinstance(x, bytes) or (isinstance(x, str) and any(c in x for c in "'[]\\"))):
+            return False
+    return True
+
+
+X_LEAVES = [
+    "date(2020, 1, 2)", "date(1999, 12, 31)", "date(1, 1, 1)", "date(9999, 12, 31)", "date(2024, 2, 29)",
+    "datetime(2020, 1, 2, 3, 4, 5)", "datetime(2020, 1, 2, 0, 0, 0)", "datetime(2020, 1, 2, 3, 4, 5, 123, tzinfo=timezone(timedelta(hours=2)))",
+    "datetime(1999, 12, 31, 23, 59, 59, 999999, tzinfo=timezone(timedelta(hours=-5, minutes=-30)))", "datetime(1969, 12, 31, 23, 0, 0)",
+    "datetime(2024, 2, 29, 12, 0, 0, tzinfo=timezone(timedelta(hours=14)))", "datetime(1900, 3, 1, 0, 0, 0)", "datetime(1, 1, 1, 0, 0, 0)",
+    "datetime(9999, 12, 31, 23, 59, 59)", "datetime(2000, 2, 29, 23, 59, 59, 999999)", "datetime(2023, 7, 4, 0, 30, 0, tzinfo=timezone(timedelta(minutes=45)))",
+    "time(3, 4, 5)", "time(0, 0, 0)", "time(23, 59, 59, tzinfo=timezone(timedelta(hours=2)))", "time(12, 30)",
+    "timedelta(seconds=5)", "timedelta(days=1)", "timedelta(days=-1, seconds=5)", "timedelta(days=2, microseconds=7)", "timedelta(0)",
+    "timedelta(hours=100, minutes=3)", "timedelta(microseconds=-1)", "timedelta(seconds=3599)", "timedelta(days=1000000)",
+    "Decimal('1.5')", "Decimal('1E+3')", "Decimal('0.00')", "Decimal('-0')", "Decimal('123.456')", "Decimal('0.000001')", "Decimal('0.0000001')",
+    "Decimal('1E-7')", "Decimal('-12.5')", "Decimal('100')", "Decimal('1.0E+2')", "Decimal('2.5')", "Decimal('0.125')", "Decimal('999.995')",
+    "Decimal('-0.004')", "Decimal('0.05')", "Decimal('0.15')", "Decimal('0.25')", "Decimal('9.995')", "Decimal('1.10')", "Decimal('123456789.123456789')",
+    "PosixPath('/a/b')", "PosixPath('rel/x.txt')", "PosixPath('.')", "PosixPath('/A/b')",
+    "Col.RED", "Col.BLUE", "Col.GREEN",
+    "10**20", "2**53 + 1", "-(2**53) - 1", "2**60 + 2**7", "2**60 + 2**7 + 1", "3 * 2**53", "123456", "12345", "99999", "995", "1005", "25", "15", "-15",
+    "99999.5", "1234567.5", "12.5", "2.5", "-2.5", "0.5", "-0.5", "999.5",
+]
+X_BASE = ["None", "True", "False", "0", "1", "2", "3", "-1", "10", "1.5", "'a'", "'b'", "''", "'ab'", "'x y'", "'AbC'", "b'a'", "b''", "'__p'", "'NONE'", "'int:1'"]
+X_KEYS = ["'a'", "'b'", "'c'", "'k1'", "''", "'__p'", "1", "2", "10", "None", "True", "1.5", "b'a'", "date(2020, 1, 2)", "Decimal('1.5')", "'Key'", "'key'",
+          "PosixPath('/a/b')", "timedelta(seconds=5)"]
+
+
+def gen_xexpr(rng, depth):
+    """a Python expression (evaluated by from_xrepr) for a nested value over the extended universe"""
+    if depth <= 0 or rng.random() < 0.25:
+        return rng.choice(X_LEAVES) if rng.random() < 0.6 else rng.choice(X_BASE)
+    k = rng.choice("LLTDDSFNNOO")
+    n = rng.randint(0, 3)
+    sub = lambda: gen_xexpr(rng, depth - 1)
+    if k == "L":
+        return "[" + ", ".join(sub() for _ in range(n)) + "]"
+    if k == "T":
+        return "(" + "".join(sub() + ", " for _ in range(n)) + ")"
+    if k == "D":
+        return "{" + ", ".join("%s: %s" % (kk, sub()) for kk in rng.sample(X_KEYS, n)) + "}"
+    if k in "SF":
+        ms = rng.sample(X_LEAVES[:58] + X_BASE, n)
+        return ("set([%s])" if k == "S" else "frozenset([%s])") % ", ".join(ms)
+    if k == "N":
+        return "Pt(%s, %s)" % (sub(), sub()) if rng.random() < 0.6 else "Rec(%s, %s, %s)" % (sub(), sub(), sub())
+    names = rng.sample(["a", "b", "rows", "__p", "_q", "tag"], rng.randint(0, 3))
+    return "%s(%s)" % (rng.choice(["Box", "Box", "Crate"]), ", ".join("%s=%s" % (nm, sub()) for nm in names))
+
+
+X_FIXED = [
+    "Pt(1, 2)", "Pt([1, 2], {'a': Pt(0, 0)})", "Rec('n', [(1, 2)], None)", "[Col.RED, Col.GREEN]", "Box(a=1, b=[2, 3])", "Box(__p=1, q=2)",
+    "Crate(a=1, b=[2, 3])", "Box()", "[date(2020, 1, 2), datetime(2020, 1, 2, 0, 0, 0)]", "{date(2020, 1, 2): 1, 'k': Decimal('1.5')}",
+    "set([date(2020, 1, 2), 1, 'a'])", "(PosixPath('/a'), timedelta(seconds=1))", "{'a': [1, 2, 2], 'b': {'c': 1.5, '__p': 3}}",
+    "[1, [2, 3], {'a': 4}]", "{'': 1, 'b': 2}", "{'': 1, b'': 2}", "[10**20, 2**53 + 1, -(2**53) - 1, 2**60 + 2**7, 2**60 + 2**7 + 1, 3 * 2**53]",
+    "[123456, 0, 5, -5, 15, 25, 12345, 99999, 100000, 1.5, 2.5, 0.5, -0.5, 12.5, 99999.5, 1234567.5]",
+    "[5, 15, 25, 35, 45, 55, 95, 105, 995, 9995, 99995, 999995, 1005, 1015, 1025, 125, 135, 145, 3.5, 4.5, 9.5, 10.5, 99.5, 999.5, 1000000.5, 123456789012345, 999999999999999, 2**52 + 1, 10**15 + 5]",
+    "[-15, -25, -2.5, -3.5, -99.5, 7, 70, 700, 7000, 94, 96, 949, 950, 951, 9949, 9950, 9951]",
+    "[Decimal('0.5'), Decimal('1.5'), Decimal('2.5'), Decimal('0.05'), Decimal('0.15'), Decimal('0.25'), Decimal('0.005'), Decimal('0.015'), Decimal('0.025'), Decimal('9.995'), Decimal('99.5'), Decimal('-0.5'), Decimal('-1.5'), Decimal('1E+2'), Decimal('12E+1'), Decimal('0E+2'), Decimal('1.10'), Decimal('123456789.123456789'), Decimal('-0.0005'), Decimal('0.9995'), Decimal('1E-10')]",
+    "[timedelta(days=1, seconds=1), timedelta(days=-2), timedelta(seconds=59), timedelta(seconds=60), timedelta(seconds=3600), timedelta(seconds=86399), timedelta(microseconds=1), timedelta(seconds=1, microseconds=500000)]",
+    "[datetime(2100, 2, 28, 12, 30, 0, tzinfo=timezone(timedelta(hours=-12))), datetime(1970, 1, 1, 0, 0, 0), datetime(1600, 12, 31, 1, 1, 1, 1), datetime(1, 1, 1, 0, 0, 0, tzinfo=timezone(timedelta(hours=-1))), datetime(400, 3, 1, 0, 0, 0), datetime(2001, 1, 1, 0, 0, 0), datetime(1999, 12, 31, 23, 59, 59)]",
+    "[1, 'a', 2.0, None, True, [1, 'a']]", "{'a': 1, 'b': {'c': 2, 'd': 3}, 'e': [1, 2]}", "{'a': 'x', 1: 'y', 2: 3}", "[[0, 1], [1, 0], {1: [7, 8, 9]}]",
+    "{'Key': 1, 'key': 2}", "{'a': 1, b'a': 2}", "[PosixPath('/A/b'), PosixPath('/a/b')]", "{'a': Pt(1, 'x'), 'b': [Pt(1, 'x')]}",
+]
+X_BASES = [SET_MODE, MULTI_MODE, ORDERED_MODE, DEDUP_ORDERED, (True, True, True, True, False, False, None), (False, True, True, False, True, False, None),
+           (True, True, True, False, False, True, None), (True, True, True, False, False, False, 0), (True, True, True, False, False, False, 2),
+           (True, True, False, False, False, False, 3), (True, True, True, False, False, False, 1), (False, False, True, True, True, True, 4),
+           (True, True, True, True, True, False, None), (False, True, False, True, False, True, 1)]
+X_GROUPS = [(), (), (("Box", "Crate"),), (("Pt", "Rec"), ("Box", "Crate")), (("Col", "Box"),)]
+
+
+def gen_xopts(rng):
+    """option records with several non-default options at once"""
+    b = rng.choice(X_BASES)
+    digits = b[6] is not None or b[5]
+    return (b, rng.random() < 0.6, digits and rng.random() < 0.4, rng.choice([None, None, "second", "minute", "hour", "day"]), rng.choice(X_GROUPS))
+
+
+def gen_xcfg(rng, v):
+    """a _skip_this configuration built from the value's own paths: several criteria at once in a third of the cases"""
+    ps = [p for p in x_paths(v) if path_text_ok(p)]
+    ep, ip, et, ei = [], [], [], []
+    picks = rng.sample(["ep", "ip", "et", "ei"], rng.choice([1, 1, 2, 3]))
+    if "ep" in picks and ps:
+        ep = [list(p) for p in rng.sample(ps, min(len(ps), rng.randint(1, 2)))]
+        if rng.random() < 0.1:
+            ep.append([])
+    if "ip" in picks and ps:
+        ip = [list(p) for p in rng.sample(ps, min(len(ps), rng.randint(1, 2)))]
+    if "et" in picks:
+        et = rng.sample(sorted(XTYPES), rng.randint(1, 2))
+    if "ei" in picks:
+        ei = rng.sample([0, 1, 2, 3, 10, 25, 12345], 2)
+    return (ep, ip, et, ei)
+
+
+def textual_prefix_clash(cfg, v):
+    """include_paths are matched with str.startswith: root[1] also 'includes' root[10]; keep such inputs out"""
+    ip = [path_text(p) for p in cfg[1]]
+    if not ip:
+        return False
+    for p in x_paths(v):
+        t = path_text(p)
+        for q, sq in zip(cfg[1], ip):
+            if t.startswith(sq) and not (len(p) >= len(q) and [tuple(x) for x in p[:len(q)]] == [tuple(x) for x in q]):
+                return True
+    return False
+
+
+def x_modelable(v, xo, private_ok):
+    try:
+        to_coq_x(v)
+    except TypeError:
+        return False
+    if not x_in_range(v, xo) or x_memo_alias(v):
+        return False
+
+    def has_private_attr(x):
+        of = obj_fields(x)
+        if of is not None:
+            return any(n.startswith("__") for n, _ in of[2]) or isinstance(x, _enum.Enum) or any(has_private_attr(y) for n, y in of[2] if not n.startswith("__"))
+        if isinstance(x, (list, tuple)):
+            return any(has_private_attr(y) for y in x)
+        if isinstance(x, dict):
+            return any(has_private_attr(y) for y in x.values())
+        if isinstance(x, (set, frozenset)):
+            return any(isinstance(y, _enum.Enum) for y in x)
+        return False
+    # the value of a private attribute (an Enum's __objclass__ is a class) is outside the universe: such values only
+    # with ignore_private_variables=True
+    return private_ok or not has_private_attr(v)
+
+
+def x_big_set(v):
+    of = obj_fields(v)
+    if of is not None:
+        return any(x_big_set(y) for n, y in of[2] if not n.startswith("__"))
+    if isinstance(v, (set, frozenset)):
+        return len(v) >= 2
+    if isinstance(v, (list, tuple)):
+        return any(x_big_set(x) for x in v)
+    if isinstance(v, dict):
+        return any(x_big_set(x) for x in v.values())
+    return False
+
+
+def rebuild_x(v, rng):
+    """a fresh structurally equal copy with every dict's insertion order and every object's attribute order permuted"""
+    if isinstance(v, tuple) and hasattr(v, "_asdict"):
+        return type(v)(*[rebuild_x(x, rng) for x in v])
+    if isinstance(v, (Box, Crate)):
+        items = [(n, rebuild_x(x, rng)) for n, x in v.__dict__.items()]
+        rng.shuffle(items)
+        return type(v)(**dict(items))
+    if isinstance(v, list):
+        return [rebuild_x(x, rng) for x in v]
+    if isinstance(v, tuple):
+        return tuple(rebuild_x(x, rng) for x in v)
+    if isinstance(v, dict):
+        items = [(k, rebuild_x(x, rng)) for k, x in v.items()]
+        rng.shuffle(items)
+        return dict(items)
+    if isinstance(v, (set, frozenset)):
+        return type(v)(list(v))
+    return copy.deepcopy(v)
+
+
+def oracle_shapes(ctx):
+    """one configuration given in every accepted argument shape (a single item / list / set / tuple; a path with and
+    without the root prefix; a regex as text and compiled; one group as a tuple and as a list of tuples; the default
+    hasher named explicitly; a number-formatting default spelled out) hashes one value the same way"""
+    import re
+    from deepdiff import DeepHash
+    vals = ["{'a': 1, 'b': {'c': 2, 'd': [3, 'x']}, 'e': ['a', 2.5, None]}", "[{'a': 'x', 'b': 1}, ('a', 1), 'a', 1.5]",
+            "{'a': Box(a=1, b='s'), 'b': Crate(a=1, b='s'), 'c': Pt('p', 2)}", "{'a': [1, 2], 'b': Decimal('1.50'), 'c': 1.5}"]
+    families = lambda: [
+        ("exclude_paths", [dict(exclude_paths="root['a']"), dict(exclude_paths=["root['a']"]), dict(exclude_paths={"root['a']"}),
+                           dict(exclude_paths=("root['a']",)), dict(exclude_paths="a"), dict(exclude_paths=["a"]),
+                           dict(exclude_regex_paths=r"^root\['a'\]$"), dict(exclude_regex_paths=[re.compile(r"^root\['a'\]$")])]),
+        ("include_paths", [dict(include_paths="root['b']"), dict(include_paths=["root['b']"]), dict(include_paths={"root['b']"}), dict(include_paths="b")]),
+        ("exclude_types", [dict(exclude_types=[str]), dict(exclude_types={str}), dict(exclude_types=(str,)), dict(exclude_types=[str, str])]),
+        ("two_exclusions", [dict(exclude_types=[str], exclude_paths="root['a']"), dict(exclude_paths=["a"], exclude_types=(str,)),
+                            dict(exclude_types={str}, exclude_regex_paths=[r"^root\['a'\]$", re.compile("^root$x", re.X)])]),
+        ("type_groups", [dict(ignore_type_in_groups=(Box, Crate)), dict(ignore_type_in_groups=[(Box, Crate)]), dict(ignore_type_in_groups=[[Box, Crate]])]),
+        ("hasher", [dict(), dict(hasher=DeepHash.sha256hex), dict(hashes={}), dict(number_format_notation="f"), dict(apply_hash=True),
+                    dict(truncate_datetime=None), dict(ignore_repetition=True, ignore_iterable_order=True)]),
+        ("digits", [dict(ignore_numeric_type_changes=True), dict(ignore_numeric_type_changes=True, significant_digits=12),
+                    dict(ignore_numeric_type_changes=True, significant_digits=12, number_format_notation="f")]),
+    ]
+    for e in vals:
+        for name, shapes in families():      # fresh argument objects for every value (hashes={} is filled by the call)
+            hs = []
+            for k in shapes:
+                v = from_xrepr(e)
+                try:
+                    hs.append(DeepHash(v, **k)[v])
+                except Exception as ex:
+                    hs.append("raise:" + type(ex).__name__)
+            ctx.seen(("shapes", name, e), nontrivial=True)
+            ctx.count("oracle:option_shapes")
+            if len(set(hs)) > 1:
+                i = next(j for j in range(len(hs)) if hs[j] != hs[0])
+                ctx.fail({"kind": "option_shape", "family": name, "value": e, "shape_a": repr(shapes[0]), "shape_b": repr(shapes[i]), "opts": list(SET_MODE)},
+                         "one configuration in two argument shapes gives two hashes: %r vs %r on %s" % (shapes[0], shapes[i], e))
+
+
+def corr_x(ctx, n_random):
+    """extended model == implementation: root (hash, count) (or no hash at all when the root is skipped) and the set of all
+    (hash, count) table values, under the hex hasher or apply_hash=False, over option records with several non-default
+    options and _skip_this configurations with several criteria; plus the C06 clauses (deep copy, dict / attribute order)
+    on the same values with the default hasher"""
+    rng = ctx.rng
+    _late_types()
+    exprs = list(X_FIXED) + [gen_xexpr(rng, 3) for _ in range(n_random)]
+    # one object at several positions (12 %): the model sees the unfolded tree
+    exprs += [rng.choice(SHARE_TEMPLATES) % gen_xexpr(rng, 2) for _ in range(max(2, n_random // 8))]
+    cases = []
+    boolobj = ([], [], ['(XTObj (s2p "BoolObj"))'], [])
+    for e in ("[True, 1, False]", "{'a': True, True: 2, 'b': [False]}", "True", "set([True, 'a'])", "Pt(True, [False, True])"):
+        for xo in ((SET_MODE, True, False, None, ()), (MULTI_MODE, False, False, None, ())):
+            v = from_xrepr(e)
+            root, ents = impl_x(v, xo, boolobj)
+            cases.append(("run_x %s %s %s" % (coq_xopts(xo), coq_cfg(boolobj), to_coq_x(v)), [root, ents],
+                          {"value": e, "xopts": repr(xo), "skip": boolobj, "check": "bools refused by _hash after the raw test passed"}))
+    for idx, e in enumerate(exprs):
+        try:
+            v = from_xrepr(e)
+        except Exception:       # e.g. an unhashable member / key produced by the generator
+            ctx.count("x:generator_rejects")
+            continue
+        trials = []
+        if idx < len(X_FIXED):
+            trials += [(xo_b, None) for xo_b in [(b, ah, ne, None, ()) for b in X_BASES[:10] for ah in (True, False) for ne in (False, True)
+                                                 if not (ne and b[6] is None and not b[5])]]
+            trials += [((SET_MODE, True, False, tr, ()), None) for tr in ("second", "minute", "hour", "day")]
+            trials += [((SET_MODE, False, False, None, g), None) for g in X_GROUPS[2:]]
+            trials = rng.sample(trials, 5 if not ctx.thorough else 24)
+        for _ in range(2 if not ctx.thorough else 5):
+            xo = gen_xopts(rng)
+            trials.append((xo, None))
+            trials.append((xo if rng.random() < 0.5 else (rng.choice(MODES3), True, False, None, ()), gen_xcfg(rng, v)))
+        for xo, cfg in trials:
+            if not x_modelable(v, xo, xo[0][2]):
+                ctx.count("x:outside_domain")
+                continue
+            if cfg and (textual_prefix_clash(cfg, v) or ((cfg[0] or cfg[1]) and x_repeated_composite(v))):
+                ctx.count("x:skipped_path_text_or_table_reuse")
+                continue
+            try:
+                root, ents = impl_x(v, xo, cfg)
+            except Exception as ex:
+                ctx.count("x:impl_raises:" + type(ex).__name__)
+                continue
+            ctx.count("x:cases:skip_config" if cfg else "x:cases:options_only")
+            ctx.count("x:root_skipped" if root is None else "x:root_hashed")
+            for flag, nm in ((not xo[1], "apply_hash=False"), (xo[2], "notation_e"), (xo[3], "truncate_datetime"), (xo[4], "type_groups")):
+                if flag:
+                    ctx.count("x:opt:" + nm)
+            cases.append(("run_x %s %s %s" % (coq_xopts(xo), coq_cfg(cfg), to_coq_x(v)), [root, ents],
+                          {"value": e, "xopts": [list(xo[0])] + list(xo[1:4]) + [[list(g) for g in xo[4]]], "skip": cfg,
+                           "impl_root": (unhex(root[0])[:200], root[1]) if root and xo[1] else root}))
+        # C06 on the implementation for the same value (default hasher, no skip): deep copy / rebuilt with other orders
+        for o in MODES3:
+            if not o[1] and x_big_set(v):
+                continue            # K3 (ordered mode leaks set iteration order) is exercised by the base oracle
+            try:
+                h0 = impl_hash(v, o)[0]
+            except Exception as ex:
+                ctx.count("x:oracle_raises:" + type(ex).__name__)
+                continue
+            for kind, w in (("copy", copy.deepcopy(v)), ("dict_order", rebuild_x(v, rng))):
+                h1 = impl_hash(w, o)[0]
+                ctx.seen(("x", kind, o, e), nontrivial=True)
+                ctx.count("oracle:x:" + kind)
+                if h1 != h0 and not x_memo_alias(v):
+                    ctx.fail({"kind": "x_" + kind, "opts": list(o), "value": e}, "hash of a value with date / Decimal / Path / object leaves changed by %s: %s" % (kind, e))
+    ctx.coq_cases("hash_x", HEADER_X, cases, shard=120, label="extended_model_root_count_and_table_values")
 
 
 def run(ctx):
@@ -1101,6 +1773,8 @@ def run(ctx):
         w = rebuild(v, rng, dict_order=True, set_order=True)
         oracle_shared(ctx, w, v, rng.choice(MODES3))
     corr_members(ctx, 600 if ctx.thorough else 120)
+    corr_x(ctx, 400 if ctx.thorough else 45)
+    oracle_shapes(ctx)
     oracle_options(ctx, rng, 120 if ctx.thorough else 25)
     oracle_opaque(ctx)
     # --- repeated sub-objects (one object at several positions), long-lived tables, in-place edits
@@ -1132,6 +1806,18 @@ def replay(ctx, data):
     kind = case.get("kind")
     rng = random.Random(0)
     MODE_NAME.setdefault(o, "options")
+    if kind == "option_shape":
+        oracle_shapes(ctx)
+        print("replay: option shapes (family %s) on %s" % (case.get("family"), case["value"]))
+        return
+    if kind in ("x_copy", "x_dict_order"):
+        w = copy.deepcopy(v) if kind == "x_copy" else rebuild_x(v, rng)
+        h0, h1 = impl_hash(v, o)[0], impl_hash(w, o)[0]
+        ctx.evaluations += 1
+        print("replay: %s value=%s -> %s ; rebuilt -> %s" % (kind, case["value"], h0, h1))
+        if h0 != h1:
+            ctx.fail(case, "hash changed by %s: %s" % (kind, case["value"]))
+        return
     if kind == "copy_opaque":
         check_opaque(ctx, case["value"], o)
         print("replay: copy_opaque %s" % case["value"])
